@@ -193,6 +193,12 @@ func (s *scanner) ReadIndirectObject() (Native, Reference, error) {
 	return obj, ref, nil
 }
 
+// isEndOfData reports whether err stands for the end of the input rather
+// than for a failure of the underlying reader.
+func isEndOfData(err error) bool {
+	return err == io.EOF || err == io.ErrUnexpectedEOF
+}
+
 func (s *scanner) ReadObject() (Native, error) {
 	buf, err := s.PeekN(5) // len("false") == 5
 	if err != nil {
@@ -804,7 +810,9 @@ func (s *scanner) ReadStreamData(dict Dict) (stm *Stream, err error) {
 	declared := int64(-1)
 	if hasLength {
 		n, err := s.getInt(lengthObj)
-		if IsReadError(err) {
+		if IsReadError(err) && !isEndOfData(err) {
+			// a length object cut off by the end of the data is a
+			// malformed file, not a failing source
 			return nil, err
 		}
 		if err == nil && n >= 0 {
